@@ -164,6 +164,14 @@ def check_src_header(rep, prog):
     rep.check(okd, "C03.R5.registry", "registry looked up with '0x'+refcode[4:8] and type refcode[0:2]", "SRC.getErrorDetails",
               "registry.getErrorMessage(code, srcType)", "registry is not queried with the reason code characters 4..7 and the two type "
               "characters of the reference code: %s" % [repr(e.data[1][1:])[:200] for e in calls])
+    shared = [e for e in I.events if e.kind == "shared_mutation" and
+              (e.data[0].startswith("class ") or e.data[0].startswith("default argument"))]
+    for e in shared:
+        rep.fail("C03.R6.per-log-accumulators", e.func, e.node,
+                 "SRC decoder accumulates log values in an object shared by all instances (%s, %s): a later SRC shows the "
+                 "words of an earlier one" % (e.data[0], e.data[1]), node=e.node)
+    if not shared:
+        rep.ok("C03.R6.per-log-accumulators", "hex words / callouts are accumulated in per-instance containers")
     return I
 
 
@@ -475,6 +483,9 @@ def check_registry(rep, prog):
     I.obj(reg).attrs["pels"] = Sym("PELS")
     r = I.method(reg, "getErrorMessage", [Sym("code"), Sym("typ")])
     loops = [L for L in I.loops.values() if L.func.endswith("getErrorMessage")]
+    if not loops:
+        raise AnalysisError("Registry.getErrorMessage no longer scans self.pels with a loop: look-up idiom not recognised, "
+                            "first-match/type/reason-code clauses cannot be decided")
     first = isinstance(r, Ite) and any(isinstance(x, Op) and x.op == "loopret" for x in walk(r)) and len(loops) == 1 \
         and loops[0].iter == Sym("PELS")
     rep.check(first, rule, "getErrorMessage returns at the first matching registry entry (search over self.pels in order)",
